@@ -211,8 +211,9 @@ def run_property(prop_id, module, tier="quick", configs=None, replay=None):
                 r = rby.get(rid)
                 alts = [(label, by[rid]) for label, by, _ in views if rid in by]
                 if r is not None and raw_ok(r):
-                    if r.findings and alts and r.template not in SEMANTIC_TEMPLATES:
+                    if r.findings and alts:
                         keep, dropped = [], 0
+                        semantic = r.template in SEMANTIC_TEMPLATES
                         for f in r.findings:
                             confirmed = True
                             for vi, (_, n) in enumerate(alts):
@@ -220,6 +221,10 @@ def run_property(prop_id, module, tier="quick", configs=None, replay=None):
                                 vf = vprog.fn(f.function, f.file) if vprog is not None and f.function != "?" else None
                                 if vf is not None and not vf.normalized:
                                     continue        # this view shows the function exactly as written: nothing to add
+                                if semantic and (_ != "helpers inlined" or vf is None or not vf.inlined):
+                                    # rules that follow values themselves (typestate, lockset) are only put to the view in
+                                    # which helpers are inlined, and only for functions a helper was inlined into
+                                    continue
                                 if (f.function, kind_of(f.construct)) not in {(g.function, kind_of(g.construct)) for g in n.findings}:
                                     confirmed = False
                             if confirmed or (f.rule, f.file, f.function, f.construct) in known_now:
